@@ -446,7 +446,7 @@ func replayBatch(par int, jobs []string) string {
 }
 
 func c12(c *Ctx) {
-	c.Rule = "sequential scripts (wseq): random scripts of heartbeats, commands (7 command ids + 0x9003), responses of the 5 echoing types in any order, duplicates, unknown serials, unparsable bodies, 0x1003, timeouts, disconnect, executed step by step on a live server and compared token by token with the model; concurrent scenarios (wexp): 1..8 callers with timeouts 60-600 ms, none, and 0 = the 3 s default, against a scripted terminal (answers delayed/late/twice/unknown/unparsable/never/in 2-4 sub-packages (long 0x1205 0x0805 0x0104 and short bodies cut up, a heartbeat in between and after), 5-8 answers in one TCP segment, heartbeats and location reports in between, serial wrap at 65535, 0x8003 frames and a stalled transfer through reissuePackChan, close/RST; thorough tier: the witnesses of the findings serial-reuse and blocked-write), the recorded history must be explained by a schedule of the model and pass the direct oracle; the server runs in child processes (a crash is an observation); a case is non-trivial when it contains at least one command written to the terminal; distinct = distinct request lines"
+	c.Rule = "sequential scripts (wseq): random scripts of heartbeats, commands (7 command ids + 0x9003), responses of the 5 echoing types in any order, duplicates, unknown serials, unparsable bodies, 0x1003, timeouts, disconnect, executed step by step on a live server and compared token by token with the model; concurrent scenarios (wexp): 1..8 callers with timeouts 5-600 ms, none, and 0 = the 3 s default, against a scripted terminal (answers delayed/late/twice/unknown/unparsable/never/in 2-4 sub-packages (long 0x1205 0x0805 0x0104 and short bodies cut up, a heartbeat in between and after), 5-8 answers in one TCP segment, heartbeats and location reports in between, serial wrap at 65535, 0x8003 frames and a stalled transfer through reissuePackChan, close/RST/garbage; some batches with user callbacks that sleep 1-15 ms; the witnesses of the findings serial-reuse (both variants) and blocked-write, each in a server of its own), the recorded history must be explained by a schedule of the model and pass the direct oracle; the server runs in child processes (a crash is an observation); a case is non-trivial when it contains at least one command written to the terminal; distinct = distinct request lines"
 	// ---- jobs
 	nseq := 300
 	if !c.Quick() {
@@ -464,7 +464,7 @@ func c12(c *Ctx) {
 		g.script(6 + g.rng.Intn(14))
 		jobs = append(jobs, jobT{line: "op wseq 0 " + strings.Join(g.toks, " "), what: g.what})
 	}
-	kinds := []string{"reissue", "frag", "frag", "burst", "burst", "order", "late", "dup", "unknown", "bad", "never", "mixed", "mixed", "attr", "notmo", "prejoin",
+	kinds := []string{"garbage-close", "reissue", "frag", "frag", "burst", "burst", "order", "late", "dup", "unknown", "bad", "never", "mixed", "mixed", "attr", "notmo", "prejoin",
 		"close-outstanding", "close-afterresp", "close-queued"}
 	per := 60
 	if !c.Quick() {
@@ -502,6 +502,7 @@ func c12(c *Ctx) {
 	type batch struct {
 		jobs []jobT
 		r    BatchRes
+		slow int // > 0: the server's user callbacks sleep up to this many ms
 	}
 	var batches []*batch
 	for i := 0; i < len(jobs); i += bsz {
@@ -511,11 +512,33 @@ func c12(c *Ctx) {
 		}
 		batches = append(batches, &batch{jobs: jobs[i:e]})
 	}
-	if !c.Quick() { // the witnesses of the two recorded findings, each in a server of its own (they wedge it)
-		for _, k := range []string{"reuse", "noread"} {
-			seed := c.Rng.Int63n(90000000)
-			batches = append(batches, &batch{jobs: []jobT{{line: fmt.Sprintf("scn %s %d", k, seed), kind: k, seed: seed}}})
+	// slow user callbacks (1..15 ms in OnRead/OnWrite/OnJoin/OnLeaveExecutionEvent, inside the reader and writer goroutines)
+	nslow := 40
+	if !c.Quick() {
+		nslow = 600
+	}
+	var sj []jobT
+	for i := 0; i < nslow; i++ {
+		k := []string{"order", "late", "mixed", "frag", "burst", "dup", "unknown", "attr", "close-outstanding", "close-afterresp", "reissue"}[i%11]
+		seed := c.Rng.Int63n(90000000)
+		sj = append(sj, jobT{line: fmt.Sprintf("scn %s %d", k, seed), kind: k, seed: seed})
+	}
+	for i := 0; i < len(sj); i += bsz {
+		e := i + bsz
+		if e > len(sj) {
+			e = len(sj)
 		}
+		batches = append(batches, &batch{jobs: sj[i:e], slow: 5 + 5*((i/bsz)%3)})
+	}
+	// the witnesses of the recorded findings, in servers of their own (noread wedges its server): also in the quick
+	// tier, so that a run says whether the findings were reproduced
+	for _, ks := range [][]string{{"reuse", "reuse-timer"}, {"noread"}} {
+		var js []jobT
+		for _, k := range ks {
+			seed := c.Rng.Int63n(90000000)
+			js = append(js, jobT{line: fmt.Sprintf("scn %s %d", k, seed), kind: k, seed: seed})
+		}
+		batches = append(batches, &batch{jobs: js})
 	}
 	var wg sync.WaitGroup
 	sem := make(chan struct{}, 3)
@@ -529,14 +552,35 @@ func c12(c *Ctx) {
 			for _, j := range b.jobs {
 				lines = append(lines, j.line)
 			}
-			b.r = RunBatch(SelfExe(), nil, 8, lines, 120*time.Second)
+			var d *DelayCfg
+			if b.slow > 0 {
+				d = &DelayCfg{SlowCB: b.slow}
+			}
+			b.r = RunBatch(SelfExe(), d, 8, lines, 120*time.Second)
 		}(b)
 	}
 	wg.Wait()
+	var notes []string
+	defer func() { c.Extra["notes"] = notes }()
 	for _, b := range batches {
 		var lines []string
 		for _, j := range b.jobs {
 			lines = append(lines, j.line)
+		}
+		if b.slow > 0 {
+			c.Count("batch-with-slow-callbacks")
+		}
+		for _, j := range b.jobs { // a witness that did not report at all
+			if j.kind == "reuse" || j.kind == "reuse-timer" || j.kind == "noread" {
+				found := false
+				for _, o := range b.r.Outs {
+					found = found || o.Line == j.line
+				}
+				if !found {
+					notes = append(notes, "NOTE witness "+j.kind+": no report from the child ("+Trunc(b.r.Crash, 200)+")")
+					c.Count("witness:" + j.kind + ":no-report")
+				}
+			}
 		}
 		if b.r.Crash != "" {
 			c.Violate(Violation{Signature: "C12/crash", What: "the server process died while commands and responses were exchanged",
@@ -561,6 +605,16 @@ func c12(c *Ctx) {
 				continue
 			}
 			c.Count("scn:" + j.kind)
+			if o.Note != "" {
+				n := o.Note
+				if i := strings.Index(n, ":"); i > 0 {
+					n = n[:i]
+				}
+				c.Count("witness:" + j.kind + ":" + n)
+				if n != "reproduced" {
+					notes = append(notes, "NOTE witness "+j.kind+" ("+j.line+"): "+o.Note)
+				}
+			}
 			for k, n := range o.Kinds {
 				c.Dist["result:"+k] += n
 			}
